@@ -149,19 +149,6 @@ def _glued(mt):
     return False
 
 
-def _crossing_variant(sent, rid):
-    """F18a shape: the relayed text the current code produces when a block token ends a line: the
-    stream name that follows the newline is rewritten too. Returns the set of such stream names."""
-    names = []
-    lines = sent.split("\n")
-    for i in range(1, len(lines)):
-        prev = lines[i - 1].split(" ")
-        first = lines[i].split(" ")[0]
-        if len(prev) > 1 and BLOCKISH.match(prev[-1]) and "+A" in first:
-            names.append(first)
-    return names
-
-
 # ----------------------------------------------------------------------------- generator
 
 def _hash(rng):
@@ -560,8 +547,6 @@ def finding_of(case, impl, why):
             if _glued(a[2]) and (req == p or req.startswith(p + "+")):
                 return "F18b"
             return None
-        if "differs from what remote" in why and rid:
-            return "F18a" if _is_f18a(a[2], mt, rid) else None
     if f[0] == "get" and impl.startswith("err ") and "but the call failed" in why:
         # F18b, other direction: the manifest hashes to the request by the published definition but
         # not for PortableDataHash, because bytes glued to a hash+size token (here typically a
@@ -576,9 +561,6 @@ def finding_of(case, impl, why):
         if honest and all(_glued(a[2]) and not go_ok(a[2]) for a in honest):
             return "F18b"
         return None
-    if f[0] == "rw" and "relayed manifest differs" in why:
-        rid, mt = unhx(f[1]), unhx(f[2])
-        return "F18a" if _is_f18a(mt, unhx(impl), rid) else None
     if f[0] == "legacy" and impl.startswith("ok "):
         rid, expect, field, mt = unhx(f[1]), unhx(f[2]), unhx(f[3]), unhx(f[4])
         out = unhx(impl.split(" ")[1])
@@ -596,25 +578,6 @@ def _scanlines_norm(mt):
     if lines and lines[-1] == "":
         lines.pop()
     return "".join((l[:-1] if l.endswith("\r") else l) + "\n" for l in lines)
-
-
-def _is_f18a(sent, relayed, rid):
-    """relayed == sent with block-locator hints rewritten line by line, plus the stream names that
-    directly follow a line ending in a block token rewritten as well (and nothing else)"""
-    if not _crossing_variant(sent, rid):
-        return False
-    lines = sent.split("\n")
-    fixed = []
-    for i, l in enumerate(relayed.split("\n")):
-        if i >= len(lines):
-            return False
-        toks = l.split(" ")
-        prev = lines[i - 1].split(" ") if i > 0 else []
-        first = lines[i].split(" ")[0]
-        if i > 0 and len(prev) > 1 and BLOCKISH.match(prev[-1]) and toks[0] == first.replace("+A", "+R" + rid + "-"):
-            toks[0] = first
-        fixed.append(" ".join(toks))
-    return only_sig_diff(sent, "\n".join(fixed), rid) is None
 
 
 def nontrivial_key(case, impl):
